@@ -87,8 +87,8 @@ func astFieldWrites(p *core.Prog, rels []string, astPath string) map[string]stri
 // c06Derived: parser-populated fields that duplicate information printed from another field.
 var c06Derived = map[string]string{
 	"SelectStatement.TableName": "duplicates From[0].Name (kept for backward compatibility)",
-	"JoinClause.Left":            "synthetic copy of the left table reference, which is printed from From / the previous join",
-	"AST.Comments":               "comments are preserved by the CLI formatter, not by SQL()/Format (documented)",
+	"JoinClause.Left":           "synthetic copy of the left table reference, which is printed from From / the previous join",
+	"AST.Comments":              "comments are preserved by the CLI formatter, not by SQL()/Format (documented)",
 }
 
 func runC06(c *Ctx) {
